@@ -244,6 +244,16 @@ def collect(ctx, pid):
     return out
 
 
+def evidence_path(pid):
+    """evidence/<id>.json describes runs against /repo; runs against a scratch tree (VERIF_REPO) must not overwrite it"""
+    if os.path.realpath(P.REPO) == '/repo':
+        d = os.path.join(P.VERIF, 'evidence')
+    else:
+        d = os.path.join(P.WORK, 'evidence-scratch')
+    os.makedirs(d, exist_ok=True)
+    return os.path.join(d, pid + '.json')
+
+
 def write_replay(pid, payload):
     os.makedirs(os.path.join(P.VERIF, 'replays'), exist_ok=True)
     h = hashlib.sha256(json.dumps(payload, sort_keys=True).encode()).hexdigest()[:12]
@@ -324,8 +334,7 @@ def check_property(pid, tier, seed):
               'coverage': {'obligations': 1, 'discharged': 0, 'checker_cmd': 'n/a (check aborted)', 'trusted_base': TRUSTED_BASE,
                            'evaluations': 1, 'distinct_nontrivial': 0, 'explanation': 'check aborted: ' + tb.strip().splitlines()[-1][:300]},
               'wall_s': 0.0, 'violations': 1}
-        os.makedirs(os.path.join(P.VERIF, 'evidence'), exist_ok=True)
-        json.dump(ev, open(os.path.join(P.VERIF, 'evidence', pid + '.json'), 'w'), indent=1)
+        json.dump(ev, open(evidence_path(pid), 'w'), indent=1)
         print('VIOLATION property=%s replay=%s no-failing-input-found' % (pid, path))
         return 1
 
@@ -506,8 +515,7 @@ def check_property_(pid, tier, seed):
         'wall_s': round(time.time() - t0, 2),
         'violations': len(violations),
     }
-    os.makedirs(os.path.join(P.VERIF, 'evidence'), exist_ok=True)
-    json.dump(ev, open(os.path.join(P.VERIF, 'evidence', pid + '.json'), 'w'), indent=1)
+    json.dump(ev, open(evidence_path(pid), 'w'), indent=1)
     violations.sort(key=lambda v: v[1] != '')      # concrete failing inputs first
     for path, suffix in violations:
         print('VIOLATION property=%s replay=%s%s' % (pid, path, suffix))
